@@ -72,18 +72,21 @@ Theorem C07_postprocess_unsorted_refuted : exists m ord1 ord2, map_order ord1 /\
 Proof. exact postprocess_unsorted_refuted. Qed.
 Print Assumptions C07_postprocess_unsorted_refuted.
 
-(* obligations against the source: the compile path builds per-instance lexer and parser; every lexer construction
-   under pkg/ and cmd/ deletes its map entry when its function ends; the state map is a linearisable map used through
+(* obligations against the source: every lexer / parser construction under pkg/ and cmd/ uses the per-instance
+   constructors, which deserialise an ATN of their own, and deletes its map entry when its function ends; the state map is a linearisable map used through
    Load / Store / Delete by key; no other hand-written package variable of pkg/grammar and pkg/parse is ever written *)
 Theorem C07_source_shape :
   (parse_lexer_ctor, parse_parser_ctor) = ("NewThreadSafeSyslLexer", "NewThreadSafeSyslParser")%string /\
   forallb (fun s => match s with (_, _, _, deferred) => deferred end) lexer_sites = true /\
+  (forallb (fun s => match s with (_, _, ctor, _) => String.eqb ctor "NewThreadSafeSyslLexer" end) lexer_sites = true /\
+   forallb (fun s => match s with (_, _, ctor) => String.eqb ctor "NewThreadSafeSyslParser" end) parser_sites = true) /\
   In ("pkg/parse/parse.go", "parseString", "NewThreadSafeSyslLexer", true)%string lexer_sites /\
+  per_instance_atn = [("NewThreadSafeSyslLexer", "per-instance:serializedLexerAtn"); ("NewThreadSafeSyslParser", "per-instance:parserATN")]%string /\
   state_map_type = "&sync.Map{}"%string /\
   map (fun g => snd g) globals = ["init-only"; "init-only"; "keyed-map"; "init-only"]%string /\
   ConcShape.unknown = [].
 Proof.
-  exact (conj compile_path_constructors (conj every_lexer_state_is_deleted (conj compile_site_listed
-        (conj (proj1 state_map_is) (conj (f_equal (map (fun g => snd g)) globals_are) translator_classified_everything))))).
+  exact (conj compile_path_constructors (conj every_lexer_state_is_deleted (conj every_site_is_per_instance (conj compile_site_listed (conj per_instance_atn_is
+        (conj (proj1 state_map_is) (conj (f_equal (map (fun g => snd g)) globals_are) translator_classified_everything))))))).
 Qed.
 Print Assumptions C07_source_shape.
